@@ -163,6 +163,34 @@ def run_config(cases, frontend, prefix):
             checks["notfound-href"] = "unusable-href" if "%3A//" in h else "ok"
         except (ValueError, IndexError):
             checks["notfound-href"] = "ok"
+        if frontend == "wsgi":
+            # the same application object reached through a second mount point (SCRIPT_NAME is a
+            # property of the request, not of the application): every href it emits there has to
+            # resolve there
+            other = {"/": "/m2/", "/dav/": "/", "/a/b/": "/dav/"}.get(prefix, "/zz/")
+            explicit = ('<?xml version="1.0"?><D:propfind xmlns:D="DAV:" xmlns:C="%s"><D:prop>'
+                        '<D:current-user-principal/><D:owner/><D:principal-URL/><C:calendar-home-set/>'
+                        '<D:resourcetype/></D:prop></D:propfind>' % CALDAV.strip("{}")).encode()
+            w.request("PROPFIND", coll, [("Depth", "0"), ("Content-Type", "text/xml")], explicit)
+            w.prefix = other
+            verdict = "ok"
+            nh = 0
+            for target, depth, body in ((coll, "1", gamma.PROPFIND_ALL), (principal, "0", gamma.PROPFIND_ALL),
+                                        (coll, "0", explicit), (principal, "1", explicit)):
+                r = w.request("PROPFIND", target, [("Depth", depth), ("Content-Type", "text/xml")], body)
+                if r.status != 207:
+                    verdict = "status-%d" % r.status
+                    break
+                for m in re.finditer(rb"<(?:[A-Za-z0-9]+:)?href[^>]*>([^<]*)<", r.body):
+                    h = m.group(1).decode("utf-8", "replace").replace("&amp;", "&")
+                    t = urllib.parse.urlsplit(h).path if "://" in h else h
+                    if not t.startswith("/"):
+                        continue
+                    nh += 1
+                    p0 = w.raw("PROPFIND", t, [("Depth", "0"), ("Content-Type", "text/xml")], gamma.PROPFIND_ALL)
+                    if p0.status != 207 or b" 404 " in p0.body.split(b"propstat")[0]:
+                        verdict = "href-does-not-resolve"
+            checks["second-mount-hrefs"] = verdict if nh else "no-hrefs"
         return names_out, {"frontend": frontend, "prefix": prefix.strip("/") or "root", "checks": checks}
     finally:
         w.close()
